@@ -103,6 +103,9 @@ func mapToStreams(m map[string][]uint32) harness.Streams {
 
 func loadKnown(path string) []Known {
 	var ks []Known
+	if path == "none" {
+		return nil
+	}
 	b, err := os.ReadFile(path)
 	if err != nil {
 		return nil
